@@ -19,6 +19,10 @@ def regenerate(pid, work):
     if p.returncode != 0:
         res["problems"].append("extractor failed: " + p.stdout[-500:])
         return res
+    for line in p.stdout.splitlines():
+        if "=" in line:
+            k, v = line.split("=", 1)
+            res["facts"][k] = v
     new = open(tmp).read()
     if not os.path.exists(out) or open(out).read() != new:
         open(out, "w").write(new)
